@@ -169,6 +169,8 @@ func (s *vStore) Clear(_ http.ResponseWriter, _ *http.Request) error {
 func (s *vStore) VerifyConnection(_ context.Context) error { return nil }
 
 type vIdP struct {
+	validatedAT   string
+	newExpires    *time.Time
 	refreshCalls  int
 	refreshKind   int // 0: refreshed, new tokens 1: (false,nil) 2: ErrNotImplemented 3: error
 	newAT, newRT  string
@@ -185,6 +187,12 @@ func (p *vIdP) refresh(_ context.Context, s *sessionsapi.SessionState) (bool, er
 	switch p.refreshKind {
 	case 0:
 		s.AccessToken, s.RefreshToken = p.newAT, p.newRT
+		if ndBool("refresh-sets-expiry") {
+			t := time.Unix(int64(ndInt("new-expires")), 0)
+			verifAssume(t.Unix() >= 1000000000 && t.Unix() <= 9999999999)
+			s.ExpiresOn = &t
+			p.newExpires = &t
+		}
 		return true, nil
 	case 1:
 		return false, nil
@@ -194,8 +202,9 @@ func (p *vIdP) refresh(_ context.Context, s *sessionsapi.SessionState) (bool, er
 	return false, vErrIdP
 }
 
-func (p *vIdP) validate(_ context.Context, _ *sessionsapi.SessionState) bool {
+func (p *vIdP) validate(_ context.Context, s *sessionsapi.SessionState) bool {
 	p.validateCalls++
+	p.validatedAT = s.AccessToken
 	p.validateOK = ndBool("validate-ok")
 	return p.validateOK
 }
